@@ -80,3 +80,82 @@ def run(chk, tier, only_rule=None):
             site = U.site(fn, name)
             if ok: chk.ok('R16.3', site, {'fact': name})
             else: chk.fail('R16.3', site, fn['file'], fn['l'], msg, None, fn['q'])
+    r16_5(chk, facts)
+
+def r16_5(chk, facts):
+    """from_diff: the three emissions and their exact guard chains."""
+    chk.rule('R16.5', 'from_diff emits exactly: (found in both and values differ) -> key: from_diff(old, new); (only in source) -> key: null; '
+                      '(only in target) -> key: new value; each under exactly that condition, no further test, and non-objects return the target', floor=3)
+    fns = [f for f in facts.functions if f['n'] == 'from_diff' and f['file'].endswith('mergepatch.hpp') and not f.get('dep') and f.get('body') is not None]
+    chk.require(fns, 'mergepatch::from_diff not found')
+    for fn in U.one_per_inst(fns):
+        chk.analysed(fn)
+        g = C.CFG(fn['body'])
+        ems = []
+        for nd in g.rpo:
+            if nd.kind not in ('stmt', 'cond') or not isinstance(nd.ast, dict): continue
+            for c in A.calls_in(nd.ast):
+                if c.get('k') == 'CXXMemberCallExpr' and A.ref_name(c.get('obj')) == 'result' and A.callee_name(c) in ('try_emplace', 'insert_or_assign', 'emplace', 'set'):
+                    ems.append((nd, c))
+        chk.require(len(ems) >= 3, 'from_diff: only %d emissions into result found' % len(ems))
+        kinds = {}; em_kinds = []
+        for nd, c in ems:
+            args = c.get('args') or []
+            val = args[1] if len(args) > 1 else None
+            calls = [A.callee_name(x) for x in A.calls_in(val)] if val is not None else []
+            # the local that holds the lookup result
+            chain = []
+            for a, lab, e in g.guards(nd):
+                s = A.strip(a, casts=True)
+                if s is None or s.get('k') == 'RangeHasNext': continue
+                t = A.text(s)
+                cmp_ = G.comparison(s)
+                if cmp_ and any(A.callee_name(x) == 'end' for x in A.calls_in(cmp_[2])):
+                    found = (cmp_[0] == '!=') == bool(lab)
+                    chain.append('found' if found else 'absent')
+                elif cmp_ and cmp_[0] in ('!=', '==') and 'value()' in t:
+                    differ = (cmp_[0] == '!=') == bool(lab)
+                    chain.append('differ' if differ else 'equal')
+                elif [A.callee_name(x) for x in A.calls_in(s)] == ['is_object'] and A.ref_name(list(A.calls_in(s))[0].get('obj')) in ('source', 'target'): continue     # the entry test
+                else: chain.append('other:%s=%s' % (t[:40], lab))
+            vs = A.strip(val, casts=True) if val is not None else None
+            while vs is not None and vs.get('k') in ('CXXConstructExpr', 'MaterializeTemporaryExpr', 'CXXBindTemporaryExpr') and (vs.get('args') or [vs.get('sub')])[0] is not None and len(vs.get('args') or [1]) == 1:
+                vs = A.strip((vs.get('args') or [vs.get('sub')])[0], casts=True)
+            if vs is not None and vs.get('k') == 'DeclRefExpr' and vs.get('dk') == 'Var':
+                # a local holding the value: classify by its initialiser
+                for d in A.walk_no_lambda(fn['body']):
+                    if d.get('k') == 'VarDecl' and d.get('id') == vs.get('id') and d.get('init') is not None:
+                        calls = [A.callee_name(x) for x in A.calls_in(d['init'])]
+            if 'from_diff' in calls: kind, want = 'recurse', ['differ', 'found']
+            elif 'null' in calls: kind, want = 'delete', ['absent']
+            else: kind, want = 'add', ['absent']
+            kinds.setdefault(kind, 0); kinds[kind] += 1; em_kinds.append(kind)
+            site = U.site(fn, 'emission %s#%d' % (kind, kinds[kind]))
+            if sorted(chain) == sorted(want): chk.ok('R16.5', site, {'line': c.get('l'), 'conditions': chain})
+            else: chk.fail('R16.5', site, fn['file'], c.get('l'), 'from_diff: the "%s" emission is under the conditions %s, the diff is complete and minimal only under exactly %s' % (
+                kind, chain, want), {'conditions': chain}, fn['q'])
+        # must-pass: once the deciding outcome is known, every path to the next member (or the end) passes the emission
+        heads = [nd for nd in g.rpo if nd.kind == 'join' and any(g.dominates(nd, p) for p in nd.pred)] + [g.exit_return]
+        by_kind = {}
+        for (nd, c), k2 in zip(ems, em_kinds): by_kind.setdefault(k2, []).append(nd)
+        for nd in g.rpo:
+            if nd.kind != 'cond': continue
+            cmp_ = G.comparison(nd.ast)
+            if not cmp_: continue
+            t = A.text(nd.ast)
+            for e in nd.succ:
+                if e.kind != 'edge': continue
+                want_kind = None
+                if any(A.callee_name(x) == 'end' for x in A.calls_in(cmp_[2])):
+                    found = (cmp_[0] == '!=') == bool(e.label)
+                    if not found: want_kind = 'delete' if 'target' in A.text(cmp_[2]) else 'add'
+                elif cmp_[0] in ('!=', '==') and 'value()' in t:
+                    if (cmp_[0] == '!=') == bool(e.label): want_kind = 'recurse'
+                if want_kind is None: continue
+                site = U.site(fn, 'must emit %s' % want_kind)
+                if not g.can_reach(e, heads, avoid=by_kind.get(want_kind, [])): chk.ok('R16.5', site, {'decided_at': nd.line})
+                else: chk.fail('R16.5', site, fn['file'], nd.line, 'from_diff: after `%s` is %s a path reaches the next member without the "%s" emission: the diff misses that member' % (
+                    t[:60], e.label, want_kind), None, fn['q'])
+        for kind in ('recurse', 'delete', 'add'):
+            if not kinds.get(kind):
+                chk.fail('R16.5', U.site(fn, 'emission %s' % kind), fn['file'], fn['l'], 'from_diff has no "%s" emission' % kind, None, fn['q'])
